@@ -562,6 +562,14 @@ def python_error_cases():
         ("import nosuchmodule_xyz\n", "import-error"),
         ("run_command(\n", "syntax-error"),
         ("  x = 1\n", "syntax-error"),
+        # syntax errors found by the COMPILER stage, or raised by the file itself: SyntaxError.text is None for them
+        ("return 5\n", "syntax-error-compiler"),
+        ("break\n", "syntax-error-compiler"),
+        ("def f(a, a):\n    pass\n", "syntax-error-compiler"),
+        ("x = 1\nglobal x\n", "syntax-error-compiler"),
+        ("from __future__ import nosuchfeature_xyz\n", "syntax-error-compiler"),
+        ("raise SyntaxError('made by the file')\n", "syntax-error-raised"),
+        ("await f()\n", "syntax-error-compiler"),
         ("run_command('a', 'true')\n", "positional-call"),
         ("run_command(**5)\n", "type-error"),
         ("open('/nonexistent/zz')\n", "file-not-found"),
